@@ -65,7 +65,15 @@ pub fn gen(seed: u64, tier: Tier) -> ScenarioSpec {
             };
             // some unknown entries are not regular files (a directory, a symlink, a fifo)
             let typeflag = if name.ends_with('/') { b'5' } else if rng.chance(1, 8) { *rng.pick(&[b'2', b'1', b'6', b'5']) } else { 0 };
-            spec.archive_edits.push(ArchiveEdit { before: rng.below(8) as u8, name, size: if rng.chance(1, 4) { 0 } else { rng.below(5000) as u32 }, pseed: rng.next_u64(), typeflag });
+            // sizes: mostly small, now and then tens of megabytes (skipping an entry must not depend on its size)
+            let size = if rng.chance(1, 4) {
+                0
+            } else if typeflag == 0 && rng.chance(1, 150) {
+                (16 << 20) + 1 + rng.below(4 << 20) as u32
+            } else {
+                rng.below(5000) as u32
+            };
+            spec.archive_edits.push(ArchiveEdit { before: rng.below(8) as u8, name, size, pseed: rng.next_u64(), typeflag });
         }
     }
     spec.knobs.insert("prelude".into(), gen_prelude(&mut rng, &[3, 5], 3));
